@@ -8,12 +8,13 @@
 use std::sync::atomic::{AtomicBool, Ordering};
 use std::sync::{Arc, RwLock};
 
-pub use crate::adapt_strategy::{CombinedCollector, GlobalStrategy};
+pub use crate::adapt_strategy::{CombinedCollector, GlobalStrategy, VerifWindowState};
 pub use crate::chain::{AdaptStrategy, NutsChain, StatOptions};
 pub use crate::dynamics::{
     Direction, Hamiltonian, LeapfrogResult, Point, State, StatePool, TransformedHamiltonian,
     TransformedPoint,
 };
+pub use crate::external_adapt_strategy::ExternalTransformAdaptation;
 pub use crate::math::verif_exports as kernels;
 pub use crate::nuts::{Collector, NutsOptions, SampleInfo};
 pub use crate::sampler_stats::{SamplerStats, StatsDims};
